@@ -815,3 +815,32 @@ Definition nglob_ref (dir_always : bool) (p : str) (subs : subs_t) (path : str) 
                 || ((dir_always || ends_starlike subs ts dir_always) && ends_sep path
                     && accepts r (removelast path))))
   end.
+
+(* ------------------------------------------------------------------------------------------ *)
+(* The fragment F1 of the correctness theorem                                                  *)
+(* ------------------------------------------------------------------------------------------ *)
+
+(* literals, `?`, classes that cannot match the separator, `*` and default named wildcards with
+   pairwise distinct names, no two of the latter two kinds next to each other, no `**` *)
+Definition is_none {A} (o : option A) : bool := match o with None => true | Some _ => false end.
+
+Definition cls_rejects_sep (inner : str) : bool :=
+  match re_cls inner with RCls neg body => negb (cls_accepts neg body 47) | _ => false end.
+
+Fixpoint f1_toks (ts : list tok) (subs : subs_t) (seen : list str) (prev_star : bool) : bool :=
+  match ts with
+  | [] => true
+  | t :: r =>
+    match t with
+    | TLit s => negb (is_nil s) && f1_toks r subs seen false
+    | TQ => f1_toks r subs seen false
+    | TCls inner => cls_rejects_sep inner && f1_toks r subs seen false
+    | TStar => negb prev_star && f1_toks r subs seen true
+    | TName n => negb prev_star && negb (is_nil n) && negb (mem_str n seen) && is_none (subs_get n subs)
+                 && f1_toks r subs (n :: seen) true
+    | _ => false
+    end
+  end.
+
+Definition f1 (p : str) (subs : subs_t) : bool :=
+  negb (is_nil (tokenize p)) && f1_toks (tokenize p) subs [] false.
